@@ -26,7 +26,10 @@ ASSUMPTIONS = [
     "may_resume never obliges the server to resume except in the control "
     "attempts (fresh, unmodified, same server)",
     "an inconsistent ClientHello (EMS/EtM/SNI/suite changed) may be answered "
-    "by an alert or a full handshake",
+    "by an alert or a full handshake; the one exception is a non-EMS "
+    "session offered with the EMS extension, where RFC 7627 5.3 (and the "
+    "code's own comment) ask for a full handshake: an abort there is "
+    "reported",
 ]
 NONTRIVIAL = ["cell"]
 DEADLINE = {"quick": 60, "thorough": 900}
@@ -418,8 +421,11 @@ def resume_attempt(ctx, rng, servers, stored, W, r):
         # may the connection fail?  A session that merely does not fit the
         # new offer (suite no longer offered, other hash) is not usable and
         # must be passed over; only the EMS / EtM mismatches are cases where
-        # an abort is a legitimate answer (RFC 7627 5.3, RFC 7366 3.1)
-        if inconsistent in (None, "suite13"):
+        # an abort is a legitimate answer (RFC 7627 5.3, RFC 7366 3.1); a
+        # non-EMS session offered together with the EMS extension is the
+        # other RFC 7627 5.3 case: not resumed, full handshake (the usual
+        # situation after one side was upgraded)
+        if inconsistent in (None, "suite13", "add_ems"):
             # stale / forged / unknown / fine credentials never break the
             # connection: a full handshake must complete
             ctx.violation(dict(key, clause="fallback_failed",
